@@ -26,7 +26,7 @@ TIMEOUT = {'quick': 900, 'thorough': 6 * 3600}
 RULE = ('each run: one seeded history (<= 14 logical operations: append, overwrite, delete '
         'last, clear, flush, close+reopen, pickle+unpickle, kill+restart; ArrayPool: add_batch, '
         'remove_batch, clear, flush, save, close+open) over NpyStore / NpyArray / ArrayPool '
-        '(1-3 stores) with dtype in {f8,f4,i8,i4,u1,bool,c16}, row shape (),(k,),(k,l), '
+        '(1-3 stores) with dtype in {f8,f4,f2,i8,i4,i2,u8,u1,bool,c16,S3,>f8,>i4}, row shape (),(k,),(k,l), '
         'batch_size 1..6, Python buffer size in {64,512,4096,8192,1MiB}; after every raw '
         'write/truncate and every operation boundary the file bytes are snapshotted; EVERY '
         'snapshot taken after the first flush is evaluated as a crash point (enumerated '
@@ -49,7 +49,7 @@ ASSUMPTIONS = [
 EXPECTED_PROBES = {'quick': ['truncate_then_append', 'reopen_with_trailing_rows',
                              'clear_then_reopen', 'kill_restart']}
 
-DTYPES = ['f8', 'f4', 'i8', 'i4', 'u1', 'bool', 'c16']
+DTYPES = ['f8', 'f4', 'i8', 'i4', 'u1', 'bool', 'c16', 'f2', 'i2', 'u8', 'S3', '>f8', '>i4']
 
 
 class Gen:
@@ -64,7 +64,9 @@ class Gen:
         self.counter += 1
         size = n * int(np.prod(self.rshape)) if self.rshape else n
         base = np.arange(size, dtype=np.int64) + self.counter * 1009
-        if self.dtype.kind == 'b':
+        if self.dtype.kind == 'S':
+            a = np.array([('%03d' % (v % 1000)).encode() for v in base])
+        elif self.dtype.kind == 'b':
             a = ((base * 2654435761) >> 7) % 2 == 0
         elif self.dtype.kind == 'u':
             a = (base * 31) % 251
@@ -78,7 +80,8 @@ class Gen:
 def concat(state, dtype, rshape):
     if not state:
         return np.zeros((0,) + tuple(rshape), dtype=dtype)
-    return np.concatenate(state)
+    # np.concatenate returns native byte order; the store keeps the dtype it was given
+    return np.concatenate(state).astype(dtype, copy=False)
 
 
 def same(a, b):
